@@ -6,6 +6,7 @@ import math
 import re
 
 from pyvc.api import REGISTRY
+from pyvc.repo import REPO as _REPO
 
 P = REGISTRY.prop("C20")
 P.notes["level"] = "proof"
@@ -52,10 +53,10 @@ def g_raises(tier):
     allowed = {"TypeError", "ValueError", "ZeroDivisionError"}
     documented_other = {("Interpolation", "RuntimeError")}      # Interpolation.__call__ on an object without data
     n = 0
-    for fn in sorted(os.listdir("/repo/pymeeus")):
+    for fn in sorted(os.listdir(os.path.join(_REPO, "pymeeus"))):
         if not fn.endswith(".py"):
             continue
-        tree = ast.parse(open(os.path.join("/repo/pymeeus", fn)).read())
+        tree = ast.parse(open(os.path.join(_REPO, "pymeeus", fn)).read())
         for node in ast.walk(tree):
             if isinstance(node, ast.Raise) and node.exc is not None:
                 e = node.exc
